@@ -26,11 +26,12 @@ OutExtraRoots(c) == {<<n[1], Img(c.sigma, n[1], n[2])>> : n \in ExtraRoots(c)}
 Dropped(c) == Reach(c.inm, ExtraRoots(c)) \ KeptNodes(c.sigma)
 
 Unreachable(c) == AllNodes(c.outm) \ Reach(c.outm, OutExtraRoots(c))
-\* tolerated residue: at most one memory, only when a data segment is emitted
+\* tolerated residue: one memory, only when a data segment is emitted and no memory is reachable otherwise
+\* (it is kept "only so that retained data segments stay acceptable to third-party tools")
 ResidueOK(c, U) ==
   /\ \A n \in U : n[1] = "memory"
   /\ Cardinality(U) <= 1
-  /\ (U # {} => Len(c.outm.data) > 0)
+  /\ (U # {} => Len(c.outm.data) > 0 /\ Len(c.outm.memories) = 1)
 
 UnusedTypes(c) == (0..(Len(c.outm.types) - 1)) \ Ran(c.outm.used_types)
 
